@@ -80,6 +80,16 @@ let run_dns () =
                 (match o with
                  | ObCancel (Ok _) -> print_string "cancel ok\n"
                  | _ -> print_string "cancel PANIC\n"))
+       | [("bpoll" | "bppoll") as w; vs] ->
+           (* Interface::poll while the device hands out no transmit token: socket_egress calls the socket's
+              dispatch once, its emit closure fails (EgressError::Exhausted), the egress loop stops *)
+           let v = int_of_string vs in
+           let target = if w = "bpoll" then v else
+             (match dns_poll_at !st with Some p -> int_of_z p + v | None -> !now + 1_000_000) in
+           now := max !now target;
+           (match dns_dispatch c !st (z_of_int !now) false with
+            | Ok (s', _) -> st := s'; print_string "poll n=0\n"
+            | _ -> print_string "bad PANIC\n")
        | [("poll" | "ppoll") as w; vs] ->
            let v = int_of_string vs in
            let target = if w = "poll" then v else
